@@ -106,6 +106,27 @@ pub fn entries() -> Vec<Entry> {
 	}
 	v.push(e("C14", "key-of-other-type-as-key", "&ThreadKey", keyo, "\tlet m = Mutex::new(1); m.scoped_lock(&key, |d| *d += 1);", "\tlet m = Mutex::new(1); m.scoped_lock(key, |d| *d += 1);", "", &["E0277"]));
 
+	for (recv, bad, good) in [
+		("RwLock<ThreadKey>: Sync", "\tneed_sync_t::<RwLock<ThreadKey>>();", "\tneed_sync_t::<RwLock<i32>>();"),
+		("Mutex<ThreadKey>: Sync", "\tneed_sync_t::<Mutex<ThreadKey>>();", "\tneed_sync_t::<Mutex<i32>>();"),
+		("RwLock<ThreadKey>: Send", "\tneed_send_t::<RwLock<ThreadKey>>();", "\tneed_send_t::<RwLock<i32>>();"),
+		("Mutex<ThreadKey>: Send", "\tneed_send_t::<Mutex<ThreadKey>>();", "\tneed_send_t::<Mutex<i32>>();"),
+		("LockCollection<RwLock<ThreadKey>>: Sync", "\tneed_sync_t::<LockCollection<RwLock<ThreadKey>>>();", "\tneed_sync_t::<LockCollection<RwLock<i32>>>();"),
+		("OwnedLockCollection<(Mutex<ThreadKey>,)>: Send", "\tneed_send_t::<OwnedLockCollection<(Mutex<ThreadKey>,)>>();", "\tneed_send_t::<OwnedLockCollection<(Mutex<i32>,)>>();"),
+		("Poisonable<RwLock<ThreadKey>>: Sync", "\tneed_sync_t::<Poisonable<RwLock<ThreadKey>>>();", "\tneed_sync_t::<Poisonable<RwLock<i32>>>();"),
+	] {
+		v.push(e("C14", "share-key-parked-in-a-lock", recv, "", bad, good, "", &["E0277"]));
+	}
+	v.push(e(
+		"C14",
+		"share-key-parked-in-a-lock",
+		"scoped thread write-locks RwLock<ThreadKey>",
+		&format!("{}\tlet parked = RwLock::new(key);\n", keyo),
+		"\tstd::thread::scope(|s| { s.spawn(|| { let k = ThreadKey::get().unwrap(); let mut g = parked.write(k); let other: &mut ThreadKey = &mut *g; let m = Mutex::new(0); m.scoped_lock(other, |d| *d += 1); }); });",
+		"\tstd::thread::scope(|s| { s.spawn(|| { let k = ThreadKey::get().unwrap(); let m = Mutex::new(0); m.scoped_lock(k, |d| *d += 1); }); }); let mut g = parked.write(ThreadKey::get().unwrap_or_else(|| unreachable!()));",
+		"",
+		&["E0277"],
+	));
 	for r in receivers() {
 		let setup = format!("{}{}", key, r.setup);
 		let setupo = format!("{}{}", keyo, r.setup);
@@ -284,7 +305,8 @@ pub fn entries() -> Vec<Entry> {
 	// ---------------- C15: Send / Sync table (bounds at least as strict as std's Mutex / RwLock) ----------------
 	// (type expression, payload name, must be Send?, must be Sync?) -- "false" entries are the offending programs;
 	// each twin asserts the same bound with an i32 payload, which must hold.
-	let payloads: [(&str, &str, bool, bool); 2] = [("Rc<i32>", "Rc", false, false), ("Cell<i32>", "Cell", true, false)];
+	// (payload type, name, is Send, is Sync): neither / Send-only / Sync-only
+	let payloads: [(&str, &str, bool, bool); 4] = [("Rc<i32>", "Rc", false, false), ("Cell<i32>", "Cell", true, false), ("std::sync::MutexGuard<'static, i32>", "StdMutexGuard", false, true), ("ThreadKey", "ThreadKey", false, true)];
 	for (p, pname, psend, psync) in payloads {
 		let t = |s: &str| s.replace("@P", p);
 		let ti = |s: &str| s.replace("@P", "i32");
@@ -470,6 +492,43 @@ fn rustc(path: &str, rlib: &str, deps: &str) -> RunOut {
 		}
 	}
 	RunOut { ok: out.status.success(), codes, lines, first_message: first }
+}
+
+/// Run the corpus entries of one route and return violations re-labelled for `prop` (used by C07 for its
+/// compile-time clause: new / new_ref only accept owning inputs).
+pub fn run_route(route_prefix: &str, prop: &'static str, rep: &mut Report) {
+	let (rlib, deps) = match find_rlib() {
+		Ok(x) => x,
+		Err(e) => {
+			rep.machinery.push(format!("cannot locate the happylock rlib: {}", e));
+			return;
+		}
+	};
+	let all: Vec<Entry> = entries().into_iter().filter(|e| e.route.starts_with(route_prefix)).collect();
+	let dir = format!("/verif/c14c15/out/{}-{}", prop, route_prefix);
+	let _ = std::fs::remove_dir_all(&dir);
+	std::fs::create_dir_all(&dir).expect("mkdir");
+	let outs = par_cases(&all, |_, en| {
+		let (bs, _) = en.source(true);
+		let (gs, _) = en.source(false);
+		let bp = format!("{}/{}_bad.rs", dir, en.id);
+		let gp = format!("{}/{}_good.rs", dir, en.id);
+		std::fs::write(&bp, bs).unwrap();
+		std::fs::write(&gp, gs).unwrap();
+		(rustc(&bp, &rlib, &deps), rustc(&gp, &rlib, &deps))
+	});
+	for (en, (bad, good)) in all.iter().zip(&outs) {
+		rep.add("compile_time_clause_program_pairs", 1);
+		if !good.ok {
+			rep.machinery.push(format!("corpus twin {} ({}) does not compile: {}", en.id, en.route, good.first_message));
+			continue;
+		}
+		if bad.ok {
+			rep.violation(Viol { prop: prop.into(), key: format!("compiles|{}", en.route), detail: format!("the offending program is accepted by rustc: `{}` (twin: `{}`), files {}/{}_bad.rs", en.bad.trim(), en.good.trim(), dir, en.id), replay: json!({"kind": "compile", "id": en.id, "route": en.route, "offending_line": en.bad.trim(), "twin_line": en.good.trim(), "files": format!("{}/{}_{{bad,good}}.rs", dir, en.id)}) });
+		} else {
+			rep.add("compile_time_clause_rejected", 1);
+		}
+	}
 }
 
 pub fn check(prop: &'static str, tier: &str) -> ! {
